@@ -15,6 +15,8 @@ Driver module "c08" (serves C08 and C09).  Requests are token streams (tokens se
   c08 hist h:<actual pid> <n> op*
       op := C h:<typ> h:<metric> h:<name> <n> (h:<labelname>)* <n> (h:<labelvalue>)* h:<help> h:<mode>
           | I <idx> b:<amount> | S <idx> b:<value> (N | b:<ts>) | G <idx> | P h:<pid>
+          | W h:<pid>      a NEW worker (fresh closure, value indices restart at 0) on the same directory
+          | D h:<pid>      mark_process_dead(pid)
     reply  ok <n> step*
       step := (- | b:<get result>) <n> filestate*      filestate := h:<file name> <n> (key b:<value> b:<ts>)*
       key  := h:<metric> h:<name> <n> (h:<k> h:<v>)* h:<help>
@@ -145,7 +147,13 @@ def handleDead (ts : List String) : String :=
 
 /-! C09 histories -/
 open PromVerif.Model.Values in
-def pOp : P (Op Float)
+def pOp : P (Ev Float)
+  | "W" :: r => do
+    let (p, r0) ← pText r
+    pure (.spawn p, r0)
+  | "D" :: r => do
+    let (p, r0) ← pText r
+    pure (.dead p, r0)
   | "C" :: r => do
     let (typ, r0) ← pText r
     let (metric, r1) ← pText r0
@@ -154,25 +162,25 @@ def pOp : P (Op Float)
     let (lvs, r4) ← pList pText r3
     let (help, r5) ← pText r4
     let (mode, r6) ← pText r5
-    pure (.construct ⟨typ, metric, name, lns, lvs, help, mode⟩, r6)
+    pure (.op (.construct ⟨typ, metric, name, lns, lvs, help, mode⟩), r6)
   | "I" :: r => do
     let (i, r0) ← pNat r
     let (a, r1) ← pFloat r0
-    pure (.inc i a, r1)
+    pure (.op (.inc i a), r1)
   | "S" :: r => do
     let (i, r0) ← pNat r
     let (v, r1) ← pFloat r0
     match r1 with
-    | "N" :: r2 => pure (.set i v none, r2)
+    | "N" :: r2 => pure (.op (.set i v none), r2)
     | _ => do
       let (t, r2) ← pFloat r1
-      pure (.set i v (some t), r2)
+      pure (.op (.set i v (some t)), r2)
   | "G" :: r => do
     let (i, r0) ← pNat r
-    pure (.get i, r0)
+    pure (.op (.get i), r0)
   | "P" :: r => do
     let (p, r0) ← pText r
-    pure (.setPid p, r0)
+    pure (.op (.setPid p), r0)
   | _ => none
 
 def encKey (k : Key) : String :=
@@ -183,10 +191,10 @@ def encDisk (disk : List (Str × Model.Values.Store Float)) : String :=
     " ".intercalate ([encText f.1, toString f.2.length] ++
       f.2.map (fun e => s!"{encKey e.1} {encFloat e.2.1} {encFloat e.2.2}"))))
 
-def runHist (st : Model.Values.St Float) : List (Model.Values.Op Float) → List String
+def runHist (st : Model.Values.St Float) : List (Model.Values.Ev Float) → List String
   | [] => []
   | op :: ops =>
-    let (st', g) := Model.Values.step vops st op
+    let (st', g) := Model.Values.wstep vops st op
     let gs := match g with | some x => encFloat x | none => "-"
     s!"{gs} {encDisk st'.disk}" :: runHist st' ops
 
